@@ -393,6 +393,8 @@ MAP_UNITS4 = [
          contract="""        requires old(self).wf()
         ensures *r == old(self).qualifiers@[old(self).index as int].1, final(self).index == old(self).index,
             final(self).qualifiers@ == old(self).qualifiers@.update(old(self).index as int, (old(self).qualifiers@[old(self).index as int].0, *final(r))),
+            // the entry still refers to the same list
+            final(final(self).qualifiers)@ == final(old(self).qualifiers)@,
             final(self).wf()""",
          begin="""        proof { let v = self.qualifiers@; let ix = self.index as int;
             assert forall|x: SmallString| wf_seq(#[trigger] v.update(ix, (v[ix].0, x))) by { lemma_update_value_keeps_wf(v, ix, x); } }"""),
@@ -544,7 +546,42 @@ MORE_UNITS = [
                 && final(self->Vacant_0.qualifiers)@.len() == old(self->Vacant_0.qualifiers)@.len() + 1
                 && final(self->Vacant_0.qualifiers)@[ix].0.0@ == self->Vacant_0.key.canon()
                 && final(self->Vacant_0.qualifiers)@ == old(self->Vacant_0.qualifiers)@.insert(ix, (final(self->Vacant_0.qualifiers)@[ix].0, *final(r)))
+                && (<SmallString as vstd::std_specs::convert::FromSpec<V>>::obeys_from_spec() ==>
+                        *r == <SmallString as vstd::std_specs::convert::FromSpec<V>>::from_spec(default))
             }),"""),
+    dict(id='U-qmap.Entry.or_insert_with', file=F, fn='or_insert_with', ctx=_E, wrap="impl<'a, K: AsRef<str>> Entry<'a, K>", properties=['C11'],
+         contract="""        requires match self { Entry::Occupied(o) => o.wf(), Entry::Vacant(v) => v.wf() }, default.requires(())
+        ensures
+            self is Occupied ==> ({
+                let ix = self->Occupied_0.index as int;
+                *r == old(self->Occupied_0.qualifiers)@[ix].1
+                && final(self->Occupied_0.qualifiers)@ == old(self->Occupied_0.qualifiers)@.update(ix, (old(self->Occupied_0.qualifiers)@[ix].0, *final(r)))
+                && wf_seq(final(self->Occupied_0.qualifiers)@)
+            }),
+            self is Vacant ==> ({
+                let ix = self->Vacant_0.index as int;
+                wf_seq(final(self->Vacant_0.qualifiers)@)
+                && final(self->Vacant_0.qualifiers)@.len() == old(self->Vacant_0.qualifiers)@.len() + 1
+                && final(self->Vacant_0.qualifiers)@[ix].0.0@ == self->Vacant_0.key.canon()
+                && final(self->Vacant_0.qualifiers)@ == old(self->Vacant_0.qualifiers)@.insert(ix, (final(self->Vacant_0.qualifiers)@[ix].0, *final(r)))
+                // the closure is called exactly here, and what it returns is what is stored
+                && exists|dv: V| #[trigger] default.ensures((), dv) && (<SmallString as vstd::std_specs::convert::FromSpec<V>>::obeys_from_spec() ==>
+                        *r == <SmallString as vstd::std_specs::convert::FromSpec<V>>::from_spec(dv))
+            }),"""),
+    dict(id='U-qmap.Entry.and_modify', file=F, fn='and_modify', ctx=_E, wrap="impl<'a, K: AsRef<str>> Entry<'a, K>", properties=['C11'],
+         contract="""        requires match self { Entry::Occupied(o) => o.wf(), Entry::Vacant(v) => v.wf() },
+            forall|y: &mut SmallString| f.requires((y,))
+        ensures
+            // absent: nothing happens, the closure is not called
+            self is Vacant ==> r == self,
+            // present: the closure is applied to exactly the value of that key; keys, order and the other values are untouched
+            self is Occupied ==> r is Occupied && r->Occupied_0.index == self->Occupied_0.index,
+            self is Occupied ==> r->Occupied_0.wf(),
+            self is Occupied ==> final(r->Occupied_0.qualifiers)@ == final(self->Occupied_0.qualifiers)@,
+            self is Occupied ==> exists|y: &mut SmallString| #[trigger] f.ensures((y,), ())
+                    && *y == self->Occupied_0.qualifiers@[self->Occupied_0.index as int].1
+                    && r->Occupied_0.qualifiers@ == self->Occupied_0.qualifiers@.update(self->Occupied_0.index as int,
+                            (self->Occupied_0.qualifiers@[self->Occupied_0.index as int].0, *final(y)))"""),
     # R2: `impl<K> Index<K> for Qualifiers { fn index }` hoisted to an inherent method; documented panic => precondition
     dict(id='U-qmap.index', file=F, fn='index', ctx=r'impl<K> Index<K> for Qualifiers', wrap='impl Qualifiers', properties=['C11', 'C06'],
          sig_rw=[('R2', r'fn index\(&self, index: K\) -> &Self::Output', 'fn index<K: AsRef<str>>(&self, index: K) -> &SmallString', 1)],
@@ -553,6 +590,60 @@ MORE_UNITS = [
          begin='        broadcast use axiom_view_of_str;',
          rw=[('R10', r'\|i\| &self\.qualifiers\[i\]\.1', '|i: usize| -> (s: &SmallString) requires i < self.qualifiers@.len() ensures *s == self.qualifiers@[i as int].1 { &self.qualifiers[i].1 }', '*'),
              ('R4', r'panic!\("Qualifier \{index:\?\} not found"\);', 'x_panic_absent();', '*')]),
+    # R2: `impl<K> IndexMut<K> for Qualifiers { fn index_mut }` hoisted; documented panic => precondition;
+    # R8: `opt.map(|i| e)` written out (definition of Option::map) because the closure would capture `&mut self`
+    dict(id='U-qmap.index_mut', file=F, fn='index_mut', ctx=r'impl<K> IndexMut<K> for Qualifiers', wrap='impl Qualifiers', properties=['C11', 'C06'],
+         sig_rw=[('R2', r'fn index_mut\(&mut self, index: K\) -> &mut Self::Output', 'fn index_mut<K: AsRef<str>>(&mut self, index: K) -> &mut SmallString', 1)],
+         contract="""        requires old(self).wf(), valid_key(index.text()) && has_key(old(self).qualifiers@, lower_ascii_seq(index.text()))
+        ensures ({
+                let p = pos_of(old(self).qualifiers@, lower_ascii_seq(index.text()));
+                0 <= p < old(self).qualifiers@.len() && *r == old(self).qualifiers@[p].1
+                && final(self).qualifiers@ == old(self).qualifiers@.update(p, (old(self).qualifiers@[p].0, *final(r)))
+            }),
+            final(self).wf()""",
+         begin="""        broadcast use axiom_view_of_str;
+        proof { let v = self.qualifiers@;
+            assert forall|ix: int, x: SmallString| 0 <= ix < v.len() implies wf_seq(#[trigger] v.update(ix, (v[ix].0, x))) by { lemma_update_value_keeps_wf(v, ix, x); } }""",
+         rw=[('R8', r'(self\.get_index\(index\))\.map\(\|i\| (&mut self\.qualifiers\[i\]\.1)\)', r'(match \1 { Some(i) => Some(\2), None => None })', 1),
+             ('R4', r'panic!\("Qualifier \{index:\?\} not found"\);', 'x_panic_absent();', '*')]),
+]
+
+# capacity management and the remaining iterator / key conversions: one dependency call each; what matters is the frame
+CAP_UNITS = [
+    dict(id='stub.vec_capacity', kind='raw', text="""
+// std contracts (assumed): capacity management never touches the content
+pub assume_specification<T, A: core::alloc::Allocator>[Vec::<T, A>::reserve_exact](v: &mut Vec<T, A>, additional: usize)
+    ensures final(v)@ == old(v)@;
+pub assume_specification<T, A: core::alloc::Allocator>[Vec::<T, A>::capacity](v: &Vec<T, A>) -> (r: usize)
+    ensures r >= v@.len();
+// R9: derive(Default) on Qualifiers (derive semantics, assumed): the empty list
+impl Default for Qualifiers {
+    fn default() -> (r: Self) ensures r.qualifiers@.len() == 0
+    { Qualifiers { qualifiers: Vec::new() } }
+}
+"""),
+    dict(id='U-qmap.reserve', file=F, fn='reserve', ctx=_Q, wrap='impl Qualifiers', properties=['C11', 'C06'],
+         contract='        ensures final(self).qualifiers@ == old(self).qualifiers@'),
+    dict(id='U-qmap.reserve_exact', file=F, fn='reserve_exact', ctx=_Q, wrap='impl Qualifiers', properties=['C11', 'C06'],
+         contract='        ensures final(self).qualifiers@ == old(self).qualifiers@'),
+    dict(id='U-qmap.capacity', file=F, fn='capacity', ctx=_Q, wrap='impl Qualifiers', properties=['C11'],
+         contract='        ensures r >= self.qualifiers@.len()'),
+    dict(id='U-qmap.with_capacity', file=F, fn='with_capacity', ctx=_Q, wrap='impl Qualifiers', properties=['C11', 'C06'],
+         contract='        ensures r.qualifiers@.len() == 0, r.wf()'),
+    dict(id='U-qkey.as_str', file=F, fn='as_str', ctx=r'impl QualifierKey \{', wrap='impl QualifierKey', properties=['C11', 'C03'],
+         contract='        ensures r@ == self.0@'),
+    # R2: `impl DoubleEndedIterator for Iter<'_> { fn next_back }`, `Iterator::size_hint` hoisted to inherent methods
+    dict(id='U-qmap.Iter.next_back', file=F, fn='next_back', ctx=r"impl DoubleEndedIterator for Iter<'_>", wrap="impl<'a> Iter<'a>",
+         properties=['C11'],
+         sig_rw=[('R2', r'fn next_back\(&mut self\) -> Option<Self::Item>', "fn next_back(&mut self) -> Option<(&'a QualifierKey, &'a str)>", 1)],
+         contract="""        ensures
+            old(self).rem().len() == 0 ==> r is None,
+            old(self).rem().len() > 0 ==> r is Some
+                && r->Some_0.0.0@ == old(self).rem().last().0.0@ && r->Some_0.1@ == old(self).rem().last().1@
+                && final(self).rem() == old(self).rem().drop_last(),"""),
+    dict(id='U-qmap.Iter.size_hint', file=F, fn='size_hint', ctx=r"impl<'a> Iterator for Iter<'a>", wrap="impl<'a> Iter<'a>",
+         properties=['C11'],
+         contract="""        ensures r.0 == self.rem().len(), r.1 == Some(r.0)"""),
 ]
 
 GROUP = dict(
@@ -560,5 +651,5 @@ GROUP = dict(
     theory=['base.rs'],
     uses='use core::cmp::Ordering;\nuse core::marker::PhantomData;\nuse core::mem;\nuse core::slice;',
     canary='    axiom_string_from(); broadcast use axiom_ascii_to_lower; broadcast use axiom_view_of_str; axiom_from_keeps_text::<&str>();',
-    units=[_c.PURL_FIELD, _c.PARSE_ERROR, _c.QUALIFIER_KEY, _c.QUALIFIERS] + KEY_UNITS + CMP_UNITS + MAP_UNITS + MAP_UNITS2 + MAP_UNITS3 + MAP_UNITS4 + TYPED_UNITS + ITER_UNITS + MORE_UNITS,
+    units=[_c.PURL_FIELD, _c.PARSE_ERROR, _c.QUALIFIER_KEY, _c.QUALIFIERS] + KEY_UNITS + CMP_UNITS + MAP_UNITS + MAP_UNITS2 + MAP_UNITS3 + MAP_UNITS4 + TYPED_UNITS + ITER_UNITS + MORE_UNITS + CAP_UNITS,
 )
